@@ -85,7 +85,7 @@ class Run:
         if p.returncode != 0:
             txt = open(log).read()
             m = re.search(r"^(panic: .*|fatal error: .*)$", txt, re.M)
-            if m and "/repo/" in txt[m.start():m.start() + 6000]:
+            if m and in_repo(txt[m.start():m.start() + 6000]):
                 # the real code panicked in one of its own goroutines and took the process down
                 raise Crash(m.group(1), txt[m.start():m.start() + 6000], args)
             raise Infra("driver exited %d: %s\n%s" % (p.returncode, " ".join(args), txt[-3000:]))
@@ -197,6 +197,11 @@ class Run:
               json.dumps({k: v for k, v in coverage.items() if isinstance(v, (int, float, bool))})))
         self.cleanup()
         sys.exit(0)
+
+
+def in_repo(text):
+    """Does a stack trace mention frames of the repository under test (/repo or the scratch copy in VERIF_REPO)?"""
+    return "/repo/" in text or (os.path.realpath(REPO).rstrip("/") + "/") in text or "sourcenetwork/defradb/" in text.replace("sourcenetwork/defradb/verif", "")
 
 
 def load_known(prop):
